@@ -138,9 +138,13 @@ class LikelihoodEnergyOperator(EnergyOperator):
         return _LikelihoodChain(other, self)
 
     def __add__(self, other):
+        if not isinstance(other, LikelihoodEnergyOperator):
+            return super().__add__(other)
         return _LikelihoodSum.make([self, other])
 
     def __radd__(self, other):
+        if not isinstance(other, LikelihoodEnergyOperator):
+            return super().__radd__(other)
         return _LikelihoodSum.make([other, self])
 
     def get_metric_at(self, x):
